@@ -155,7 +155,8 @@ def run(c):
         name = "GenPromise_%d_%d_%d" % (len(rg), len(cp), n0)
         g, _ = c.export_graph("GenPromise", name, GEN_CFG % (q(rg), q(cp), n0))
         # quick: every transition that is an atomic step of an API thread; thorough: every transition
-        paths, unc = g.edge_cover(rng, want=None if c.thorough else (lambda lab: lab[0] in STEP))
+        # (thorough: at most 6000 paths per graph; what stays uncovered is reported in the evidence)
+        paths, unc = g.edge_cover(rng, want=None if c.thorough else (lambda lab: lab[0] in STEP), max_paths=6000 if c.thorough else None)
         edges_total += len(g.edges)
         paths_total += len(paths)
         uncovered_total += unc
@@ -171,16 +172,16 @@ def run(c):
 
     # ---------------- (C) code -> spec: the harness explores schedules itself ----------------
     # exhaustive re-execution DFS over all scheduler choices for small populations
-    for n0 in ([0, 1, 2, 3, 4, 5] if c.thorough else [0, 1, 3]):
+    for n0 in ([0, 1, 2, 3, 4] if c.thorough else [0, 1, 3]):
         cases.append(dict(n0=n0, exec="default", threads=threads_of(["r1", "r2"], ["k1"]), explore="dfs",
-                          max=20000 if c.thorough else 6000, origin="dfs"))
+                          max=15000 if c.thorough else 6000, origin="dfs"))
     cases.append(dict(n0=1, exec="default", threads=threads_of(["r1"], ["k1", "k2"], {"k2": "failure"}) +
-                      [dict(name="o1", kind="obs")], explore="dfs", max=20000 if c.thorough else 6000, origin="dfs"))
+                      [dict(name="o1", kind="obs")], explore="dfs", max=15000 if c.thorough else 6000, origin="dfs"))
     if c.thorough:
         cases.append(dict(n0=3, exec="default", threads=threads_of(["r1", "r2", "r3"], ["k1"]), explore="dfs",
-                          max=40000, origin="dfs"))
+                          max=30000, origin="dfs"))
         cases.append(dict(n0=2, exec="default", threads=threads_of(["r1", "r2"], ["k1"]), explore="dfs",
-                          tasksfree=True, max=20000, origin="dfs tasks free"))
+                          tasksfree=True, max=15000, origin="dfs tasks free"))
     # seeded random schedules over large populations, all registration methods, all executors
     vias = ["complete", "success", "failure", "foreach"]
     for i in range(60 if c.thorough else 16):
